@@ -71,6 +71,8 @@ type fnEnc struct {
 	callOrd   map[string]int
 	localAllocs []string // refs of non-escaping allocations
 	localMaps   []*ssa.MakeMap
+	stepSkipped map[*Clause]string
+	stepDone    map[*Clause]bool
 	curInstr    ssa.Instruction
 	lockAtEntry string
 	loopSels    map[string]int
